@@ -80,10 +80,12 @@ Den(psi, a, x, y) == LET N == Px(psi, x, y) * Px(psi, x, y) + Py(psi, x, y) * Py
 
 FluxMaps == {<<0, 1, 0, 0, 0, 0>>, <<0, 1, 2, 0, 0, 0>>,                    \* linear flux maps
              <<0, 1, 0, 1, 1, 2>>, <<0, 0, 0, 1, 0, 1>>, <<3, 2, 1, 1, 0, -1>>}   \* curved (quadratic) flux maps
-AdmtCases == {[kind |-> "admt", order |-> o, g |-> g, psi |-> psi, p |-> f, a |-> a, ix |-> ix, iy |-> iy] :
+\* (on non-square voxels only the cells next to the lower left corner: the exact integers stay within TLC's 32 bits)
+AdmtCasesAll == {[kind |-> "admt", order |-> o, g |-> g, psi |-> psi, p |-> f, a |-> a, ix |-> ix, iy |-> iy] :
                 o \in {"columns_down", "rows"}, g \in {gg \in Grids : gg.nx >= 3 /\ gg.ny >= 3 /\ <<gg.dx, gg.dy>> \in {<<1, 1>>, <<2, 3>>, <<2, 1>>} /\ gg.x0 = 1},      \* square and non-square voxels
                 psi \in FluxMaps, f \in {<<3, 0, 0, 0, 0, 0>>, <<4, -1, 2, 0, 0, 0>>, <<2, -1, 0, 1, 1, -1>>, <<0, 1, 1, 0, 0, 2>>},
                 a \in {1, 2, 10}, ix \in 1..(IF Deep THEN 4 ELSE 2), iy \in 1..(IF Deep THEN 4 ELSE 2)}
+AdmtCases == {cc \in AdmtCasesAll : <<cc.g.dx, cc.g.dy>> # <<1, 1>> => cc.ix <= 2 /\ cc.iy <= 2}
 
 \* the derivative operators are homogeneous in the length unit: on the same grid measured in units of 10^e the first-derivative
 \* rows are divided by 10^e and the second-derivative rows by 10^2e (compared by the harness for these exponents)
